@@ -1,4 +1,310 @@
-(* C07 - property theorems (in progress) *)
-From Coq Require Import List ZArith Bool Arith.
+(* C07 - Sequence scores, random walks and greedy CTC decoding match their definitions.
+   Property theorems only: each is closed by [exact <lemma of Proofs*.v>] and followed by
+   [Print Assumptions].  The harness re-checks this file on every run.
+
+   Scores live in any carrier [A] with an operation [op] and unit [unit] satisfying the stated
+   monoid laws for Leibniz equality: (Z, +, 0) - log-probabilities on a fixed-point grid, the
+   instance the correspondence runs - and (Q, *, 1) - probabilities - are both instances, and
+   [c07_spec_slp_hom] transports the declarative sum along any homomorphism between them (the
+   role exp plays between the two on the reals). *)
+From Coq Require Import List ZArith Bool Arith QArith.
 From PV Require Import C07.Model C07.Spec C07.Proofs.
 Import ListNotations.
+Local Close Scope Q_scope.
+Local Open Scope nat_scope.
+
+(* ---- "the sequence log-probability is the sum of the log-softmax values of the chosen tokens up
+        to and including the first end-of-sequence, ignoring out-of-vocabulary positions" -------- *)
+
+(* one sequence: the mask arithmetic of _sequence_log_probs_tensor (out-of-vocabulary mask,
+   _lens_from_eos by cumsum / first maximum, length mask, masked gather, sum) *)
+Theorem c07_slp_col_correct : forall (A : Type) (op : A -> A -> A) (unit : A),
+  (forall x, op unit x = x) ->
+  forall V eos (lp : list (list A)) (col : list Z), length lp = length col ->
+  slp_col op unit V eos lp col = spec_slp op unit V eos lp col.
+Proof. exact @slp_col_correct. Qed.
+Print Assumptions c07_slp_col_correct.
+
+(* the whole tensor in the (outer, time, inner) normal form *)
+Theorem c07_slp_tensor_correct : forall (A : Type) (op : A -> A -> A) (unit : A),
+  (forall x, op unit x = x) ->
+  forall V eos T B (lp : list (list (list (list A)))) (hyp : list (list (list Z))),
+  eos = None \/ 0 < T -> length lp = length hyp ->
+  (forall a, a < length hyp -> length (nth a lp []) = T /\ length (nth a hyp []) = T) ->
+  slp_tensor op unit V eos T B lp hyp =
+  Some (map2 (fun lp_a hyp_a =>
+                map (fun b => spec_slp op unit V eos (column [] b lp_a) (column 0%Z b hyp_a))
+                    (seq 0 B)) lp hyp).
+Proof. exact @slp_tensor_correct. Qed.
+Print Assumptions c07_slp_tensor_correct.
+
+(* the only error of the tensor path: eos set and a zero-length time dimension (modelled
+   limitation: the code raises RuntimeError there instead of returning the empty sum) *)
+Theorem c07_slp_tensor_error : forall (A : Type) (op : A -> A -> A) (unit : A) V eos T B lp hyp,
+  slp_tensor op unit V eos T B lp hyp = None <-> (eos <> None /\ T = 0).
+Proof. exact @slp_tensor_error. Qed.
+Print Assumptions c07_slp_tensor_error.
+
+(* _lens_from_eos is the position of the first eos (the sequence length when there is none) *)
+Theorem c07_lens_from_eos : forall e col,
+  lens_from_eos e col = match first_eos e col with Some i => i | None => length col end.
+Proof. exact lens_from_eos_spec. Qed.
+Print Assumptions c07_lens_from_eos.
+
+Theorem c07_spec_slp_hom : forall (A B : Type) (op : A -> A -> A) (unit : A)
+  (op' : B -> B -> B) (unit' : B) (h : A -> B),
+  h unit = unit' -> (forall x y, h (op x y) = op' (h x) (h y)) ->
+  forall V eos lp toks,
+  h (spec_slp op unit V eos lp toks) = spec_slp op' unit' V eos (map (map h) lp) toks.
+Proof. exact @spec_slp_hom. Qed.
+Print Assumptions c07_spec_slp_hom.
+
+(* ---- "identically for padded and packed input" ------------------------------------------------------
+
+   A PackedSequence of the padded scores lp (time x batch x classes) with lengths lens0 is:
+   sorted_indices sidx (a permutation putting the lengths in non-increasing order), its
+   inverse uidx, batch_sizes[t] = cnt t ls, data = pack_data of the re-ordered scores.  The
+   correspondence checks on every packed case that torch's pack_padded_sequence produces
+   exactly this (Model.check_pack). *)
+
+(* every sequence gets the declarative sum over its own length (eos is ignored, as documented) *)
+Theorem c07_slp_packed_correct : forall (A : Type) (op : A -> A -> A) (unit : A),
+  (forall x, op unit x = x) ->
+  forall V (lens0 sidx uidx : list nat) (lp : list (list (list A))) (hyp : list (list Z)),
+  let N := length lens0 in
+  let ls := map (fun j => nth j lens0 0) sidx in
+  length sidx = N -> length uidx = N ->
+  (forall n, n < N -> nth n uidx 0 < N /\ nth (nth n uidx 0) sidx 0 = n) ->
+  desc ls -> (forall l, In l lens0 -> 1 <= l) -> (forall j, In j sidx -> j < N) ->
+  length lp = list_max ls -> list_max ls <= length hyp ->
+  slp_ps op unit V (pack_data (index_select_cols [] sidx lp) ls)
+         (map (fun t => cnt t ls) (seq 0 (list_max ls))) (Some sidx) (Some uidx) N hyp
+  = map (fun n => spec_slp op unit V None (firstn (nth n lens0 0) (column [] n lp))
+                                          (firstn (nth n lens0 0) (column 0%Z n hyp)))
+        (seq 0 N).
+Proof. exact @slp_ps_correct. Qed.
+Print Assumptions c07_slp_packed_correct.
+
+(* the same without index tensors (enforce_sorted=True) *)
+Theorem c07_slp_packed_sorted : forall (A : Type) (op : A -> A -> A) (unit : A),
+  (forall x, op unit x = x) ->
+  forall V (ls : list nat) (lp_s : list (list (list A))) (hyp_s : list (list Z)),
+  desc ls -> (forall l, In l ls -> 1 <= l) ->
+  length lp_s = list_max ls -> list_max ls <= length hyp_s ->
+  (forall r, In r lp_s -> length r = length ls) -> (forall r, In r hyp_s -> length r = length ls) ->
+  slp_ps op unit V (pack_data lp_s ls) (map (fun t => cnt t ls) (seq 0 (list_max ls)))
+         None None (length ls) hyp_s
+  = map (fun j => spec_slp op unit V None (firstn (nth j ls 0) (column [] j lp_s))
+                                          (firstn (nth j ls 0) (column 0%Z j hyp_s)))
+        (seq 0 (length ls)).
+Proof. exact @slp_ps_sorted. Qed.
+Print Assumptions c07_slp_packed_sorted.
+
+(* packed = padded, when the padded token tensor marks the end of each sequence either by
+   out-of-vocabulary padding (eos unset) or by its first eos at the last valid position *)
+Theorem c07_slp_packed_eq_padded : forall (A : Type) (op : A -> A -> A) (unit : A),
+  (forall x, op unit x = x) ->
+  forall V (eos : option Z) (lens0 sidx uidx : list nat)
+         (lp : list (list (list A))) (hyp : list (list Z)),
+  let N := length lens0 in
+  let ls := map (fun j => nth j lens0 0) sidx in
+  length sidx = N -> length uidx = N ->
+  (forall n, n < N -> nth n uidx 0 < N /\ nth (nth n uidx 0) sidx 0 = n) ->
+  desc ls -> (forall l, In l lens0 -> 1 <= l) -> (forall j, In j sidx -> j < N) ->
+  length lp = list_max ls -> length hyp = length lp ->
+  (forall n, n < N ->
+     match eos with
+     | Some e => first_eos e (column 0%Z n hyp) = Some (nth n lens0 0 - 1)
+     | None => forall t, nth n lens0 0 <= t -> t < length hyp ->
+                         oov V (nth t (column 0%Z n hyp) 0%Z) = true
+     end) ->
+  slp_ps op unit V (pack_data (index_select_cols [] sidx lp) ls)
+         (map (fun t => cnt t ls) (seq 0 (list_max ls))) (Some sidx) (Some uidx) N hyp
+  = map (fun n => slp_col op unit V eos (column [] n lp) (column 0%Z n hyp)) (seq 0 N).
+Proof. exact @slp_packed_eq_padded. Qed.
+Print Assumptions c07_slp_packed_eq_padded.
+
+(* ---- "Every path produced by the random walk ends at its first end-of-sequence or at the step
+        limit, and its reported log-probability ... and that definition applied to the model's
+        outputs ... agree" ---------------------------------------------------------------------------
+
+   The walk is driven by the list of multinomial draws (one row of N tokens per executed
+   iteration); [walk ... = Some st] says those draws are a complete run of RandomWalk.forward
+   (the loop stops exactly after them and no draw has probability zero).  Then: the returned
+   paths are the draws; the number of steps is within the limit and the walk stopped because
+   the limit was reached or every path has ended; each reported length is the position of the
+   first eos (inclusive) or the number of steps; each reported log-probability is the
+   declarative sum over the model's outputs along the path; beyond its first eos a path holds
+   only eos; a path counts as ended exactly when it contains eos. *)
+Theorem c07_walk_correct : forall (A : Type) (op : A -> A -> A) (unit : A),
+  (forall x, op unit x = x) -> (forall x, op x unit = x) ->
+  (forall x y z, op x (op y z) = op (op x y) z) ->
+  forall (lm : nat -> list Z -> list A) V eos N mi (draws : list (list Z)) (st : wstate),
+  (forall d, In d draws -> draw_ok V N d) ->
+  walk op unit lm eos N mi draws = Some st ->
+  wy st = draws /\ length (wlens st) = N /\ length (wlp st) = N /\
+  (forall m, mi = Some m -> length draws <= m) /\
+  ((exists m, mi = Some m /\ length draws = m) \/ all_true (wfin st) = true) /\
+  forall n, n < N ->
+    let col := column 0%Z n draws in
+    nth n (wlens st) 0 = path_len eos col /\
+    nth n (wlp st) unit = spec_slp op unit V eos (lm_rows lm n col) col /\
+    (forall e, eos = Some e -> canonical e col = true) /\
+    (nth n (wfin st) false = true <-> exists e i, eos = Some e /\ first_eos e col = Some i).
+Proof. exact @walk_correct. Qed.
+Print Assumptions c07_walk_correct.
+
+(* "the distribution wrapper's log-probability of it": log_prob is the declarative sum over the
+   model's outputs, for any value ... *)
+Theorem c07_dist_log_prob_spec : forall (A : Type) (op : A -> A -> A) (unit : A),
+  (forall x, op unit x = x) ->
+  forall (lm : nat -> list Z -> list A) V eos (value : list (list Z)),
+  (forall s, In s value -> s <> []) ->
+  dist_log_prob op unit lm V eos value =
+  map2 (fun n s => spec_slp op unit V eos (lm_rows lm n s) s) (seq 0 (length value)) value.
+Proof. exact @dist_log_prob_spec. Qed.
+Print Assumptions c07_dist_log_prob_spec.
+
+(* ... so on the walk's own paths it returns the walk's reported log-probabilities: three code
+   paths (walk bookkeeping, log_prob, sequence_log_probs), one definition *)
+Theorem c07_dist_logprob_eq_walk_logp : forall (A : Type) (op : A -> A -> A) (unit : A),
+  (forall x, op unit x = x) -> (forall x, op x unit = x) ->
+  (forall x y z, op x (op y z) = op (op x y) z) ->
+  forall (lm : nat -> list Z -> list A) V eos N mi (draws : list (list Z)) (st : wstate),
+  (forall d, In d draws -> draw_ok V N d) -> draws <> [] ->
+  walk op unit lm eos N mi draws = Some st ->
+  dist_log_prob op unit lm V eos (paths_of N (wy st)) = wlp st.
+Proof. exact @dist_logprob_eq_walk. Qed.
+Print Assumptions c07_dist_logprob_eq_walk_logp.
+
+(* padding an ended path with eos (sample stacking over walks of different lengths) does not
+   change its score *)
+Theorem c07_padding_keeps_score : forall (A : Type) (op : A -> A -> A) (unit : A)
+  (lm : nat -> list Z -> list A) V eos e n (s pad : list Z) i,
+  eos = Some e -> first_eos e s = Some i ->
+  spec_slp op unit V eos (lm_rows lm n (s ++ pad)) (s ++ pad) =
+  spec_slp op unit V eos (lm_rows lm n s) s.
+Proof. exact @spec_slp_padded. Qed.
+Print Assumptions c07_padding_keeps_score.
+
+(* ---- "the wrapper's probabilities over its enumerated support sum to one and its samples lie in
+        that support" -------------------------------------------------------------------------------- *)
+
+(* what enumerate_support (enumerate_vocab_sequences, fill_after_eos, unique) contains: exactly
+   the length-T in-vocabulary sequences holding only eos after their first eos ... *)
+Theorem c07_support_characterised : forall eos T V s,
+  In s (enumerate_support eos T V) <-> in_support eos T (Z.of_nat V) s = true.
+Proof. exact support_characterised. Qed.
+Print Assumptions c07_support_characterised.
+
+(* ... each exactly once *)
+Theorem c07_support_nodup : forall e T V, NoDup (enumerate_support (Some e) T V).
+Proof. exact support_nodup_eos. Qed.
+Print Assumptions c07_support_nodup.
+
+(* for every language model given by conditional probabilities p(. | prefix) that sum to one,
+   the wrapper's probabilities (log_prob in the (Q, *, 1) instance) over the support sum to one *)
+Theorem c07_support_mass_one : forall (p : list Z -> list Q) (V : nat),
+  (forall pre, length (p pre) = V) -> (forall pre, (sumQ (p pre) == 1)%Q) ->
+  forall eos T, 1 <= T ->
+  (sumQ (dist_log_prob Qmult 1%Q (fun _ => p) (Z.of_nat V) eos (enumerate_support eos T V)) == 1)%Q.
+Proof. exact support_mass_one. Qed.
+Print Assumptions c07_support_mass_one.
+
+(* every path of a walk with step limit T, padded with eos to T, is in the support *)
+Theorem c07_samples_in_support : forall (A : Type) (op : A -> A -> A) (unit : A),
+  (forall x, op unit x = x) -> (forall x, op x unit = x) ->
+  (forall x y z, op x (op y z) = op (op x y) z) ->
+  forall (lm : nat -> list Z -> list A) (V : nat) eos N T (draws : list (list Z)) (st : wstate),
+  (forall d, In d draws -> draw_ok (Z.of_nat V) N d) ->
+  walk op unit lm eos N (Some T) draws = Some st ->
+  forall n, n < N -> In (pad_path eos T (column 0%Z n draws)) (enumerate_support eos T V).
+Proof. exact @samples_in_support. Qed.
+Print Assumptions c07_samples_in_support.
+
+(* ---- "Greedy CTC decoding returns, per element, the frame-wise best labels within the valid
+        length with repeats and blanks removed, together with their summed (or multiplied) frame
+        scores" -------------------------------------------------------------------------------------------- *)
+
+(* the label of a frame is its first maximal class and the frame score is that maximum *)
+Theorem c07_greedy_argmax : forall row : list Z, row <> [] ->
+  is_best row (fst (argmax_first row)) (snd (argmax_first row)).
+Proof. exact argmax_first_spec. Qed.
+Print Assumptions c07_greedy_argmax.
+
+(* keep mask, in_lens mask, masked_select / masked_scatter_ compaction and the reduction, for the
+   whole batch at once *)
+Theorem c07_greedy_correct : forall (is_probs : bool) (one V blank : Z) T in_lens
+  (lp : list (list (list Z))),
+  (- V <= blank <= V - 1)%Z ->
+  (forall fr, In fr lp -> length fr = T) ->
+  (forall ls, in_lens = Some ls -> length ls = length lp) ->
+  let b := norm_blank V blank in
+  let ll := eff_lens T in_lens (length lp) in
+  exists g, ctc_greedy is_probs one V blank T in_lens lp = Some g /\
+    g_lens g = map2 (fun l fr => length (row_path b T l fr)) ll lp /\
+    map2 (fun l p => firstn l p) (g_lens g) (g_paths g) = map2 (row_path b T) ll lp /\
+    g_score g = map2 (row_score is_probs one T) ll lp.
+Proof. exact greedy_correct. Qed.
+Print Assumptions c07_greedy_correct.
+
+Theorem c07_greedy_error : forall is_probs one V blank T in_lens lp,
+  ctc_greedy is_probs one V blank T in_lens lp = None <-> (blank < - V \/ V - 1 < blank)%Z.
+Proof. exact greedy_error. Qed.
+Print Assumptions c07_greedy_error.
+
+(* ---- non-vacuity: concrete inputs meeting the hypotheses --------------------------------------------- *)
+
+(* a sequence with an out-of-vocabulary token, an eos in the middle and garbage after it *)
+Example c07_slp_nonvacuous :
+  length [[-3;-5];[-7;-11];[-13;-17];[-19;-23]]%Z = length [1;5;0;1]%Z /\
+  slp_col Z.add 0%Z 2 (Some 0%Z) [[-3;-5];[-7;-11];[-13;-17];[-19;-23]]%Z [1;5;0;1]%Z = (-18)%Z.
+Proof. split; reflexivity. Qed.
+
+(* a 2-path walk over V=2 with eos=1 and limit 3: path 0 draws 0,1 (ends at step 2), path 1
+   draws 1 (ends at step 1, then is fed eos); all hypotheses of c07_walk_correct hold *)
+Example c07_walk_nonvacuous :
+  let lm := fun (n : nat) (pre : list Z) => [(-1 - Z.of_nat (length pre))%Z; (-2 - Z.of_nat n)%Z] in
+  let draws := [[0;1];[1;1]]%Z in
+  (forall d, In d draws -> draw_ok 2 2 d) /\
+  exists st, walk Z.add 0%Z lm (Some 1%Z) 2 (Some 3) draws = Some st /\
+             wlens st = [2;1] /\ wlp st = [-3;-3]%Z /\ wfin st = [true;true] /\
+             dist_log_prob Z.add 0%Z lm 2 (Some 1%Z) (paths_of 2 (wy st)) = [-3;-3]%Z.
+Proof.
+  cbn zeta. split.
+  - intros d [<-|[<-|[]]]; split; reflexivity.
+  - eexists. split; [vm_compute; reflexivity|]. repeat split; reflexivity.
+Qed.
+
+(* the support for V=2, eos=1, T=2 and the mass under a non-uniform model *)
+Example c07_support_nonvacuous :
+  enumerate_support (Some 1%Z) 2 2 = [[0;0];[0;1];[1;1]]%Z /\
+  let p := fun pre : list Z => match pre with [] => [1#3; 2#3]%Q | _ => [3#4; 1#4]%Q end in
+  (forall pre, length (p pre) = 2) /\ (forall pre, (sumQ (p pre) == 1)%Q) /\
+  dist_log_prob Qmult 1%Q (fun _ => p) 2 (Some 1%Z) (enumerate_support (Some 1%Z) 2 2)
+  = [(1#3) * ((3#4) * 1); (1#3) * ((1#4) * 1); (2#3) * 1]%Q.
+Proof.
+  split; [reflexivity|]. cbn zeta. split; [intros [|? ?]; reflexivity|].
+  split; [intros [|? ?]; reflexivity|reflexivity].
+Qed.
+
+(* greedy: labels 1,1,0,2,2 with blank 0 and valid length 4 -> [1;2]; tie in frame 0 resolved to
+   the first maximum *)
+Example c07_greedy_nonvacuous :
+  exists g, ctc_greedy false 0%Z 3 (-3) 5 (Some [4%Z])
+              [[[0;5;5];[1;7;2];[9;1;1];[0;0;4];[0;1;6]]]%Z = Some g /\
+            g_lens g = [2] /\ map2 (fun l p => firstn l p) (g_lens g) (g_paths g) = [[1;2]] /\
+            g_score g = [25]%Z.
+Proof. eexists. split; [vm_compute; reflexivity|]. repeat split; reflexivity. Qed.
+
+(* packing three sequences of lengths 1,3,2: sorted order 1,2,0 *)
+Example c07_packed_nonvacuous :
+  let lens0 := [1;3;2] in let sidx := [1;2;0] in let uidx := [2;0;1] in
+  let ls := map (fun j => nth j lens0 0) sidx in
+  ls = [3;2;1] /\ map (fun t => cnt t ls) (seq 0 (list_max ls)) = [3;2;1] /\
+  (forall n, n < 3 -> nth n uidx 0 < 3 /\ nth (nth n uidx 0) sidx 0 = n).
+Proof.
+  cbn zeta. split; [reflexivity|]. split; [reflexivity|].
+  intros [|[|[|n]]] H; try (split; [repeat constructor|reflexivity]).
+  exfalso. repeat apply Nat.succ_lt_mono in H. inversion H.
+Qed.
